@@ -122,6 +122,100 @@ def handle (op : String) (args : List String) (impl : Impl) : Option Ans :=
     pure { model := m, spec := sp,
            branch := "ecmp_dyn:" ++ a.ts.name ++ "," ++ b.ts.name ++ ":" ++
              (if !far then "within_170ns" else if absI gap < 2200 then "170ns-2us" else if absI gap < 1000000000 then "<1s" else "far") }
+  | "eminmax_dyn", [a, b] => do
+    -- C12 with ET/TDB operands: min, max, <=, >=, != (the inherent Epoch::min/max and std's Ord::min/max)
+    let a ← parseEp? a; let b ← parseEp? b
+    let ia ← instEst a; let ib ← instEst b
+    let gap := ia - ib
+    let far := decide (absI gap ≥ 170)
+    let (lo, hi) := if gap < 0 then (a, b) else (b, a)
+    let sp := if !far then noPanic impl else match impl with
+      | .ok [mi, mo, xi, xo, le, ge, ne] =>
+        verdict [("min_is_the_earlier", mi == showEp lo && mo == showEp lo), ("max_is_the_later", xi == showEp hi && xo == showEp hi),
+                 ("le", le == bool01 (decide (gap < 0))), ("ge", ge == bool01 (decide (gap > 0))), ("ne", ne == "1")]
+      | .other w => "FAIL:" ++ w
+      | _ => "FAIL:decode"
+    -- Epoch::min is `if *self < other { *self } else { other }`, Epoch::max `if *self > other { *self } else { other }`;
+    -- std's Ord::min is `if other < self { other } else { self }`, Ord::max `if other < self { self } else { other }`
+    let m := match cmpF a b, cmpF b a, eqF a b with
+      | some c, some rc, some e =>
+        "ok " ++ showEp (if c == -1 then a else b) ++ " " ++ showEp (if rc == -1 then b else a) ++ " " ++
+          showEp (if c == 1 then a else b) ++ " " ++ showEp (if rc == -1 then a else b) ++ " " ++
+          bool01 (c != 1) ++ " " ++ bool01 (c != -1) ++ " " ++ bool01 (!e)
+      | _, _, _ => "unmodelled"
+    pure { model := m, spec := sp,
+           branch := "eminmax_dyn:" ++ a.ts.name ++ "," ++ b.ts.name ++ ":" ++
+             (if !far then "within_170ns" else if absI gap < 2200 then "170ns-2us" else if absI gap < 1000000000 then "<1s" else "far") }
+  | "esort_dyn", [a, b, c] => do
+    -- C12 with ET/TDB operands: sorting and ranges; demanded when the three instants are pairwise 170 ns apart
+    let a ← parseEp? a; let b ← parseEp? b; let c ← parseEp? c
+    let ia ← instEst a; let ib ← instEst b; let ic ← instEst c
+    let far := decide (absI (ia - ib) ≥ 170 ∧ absI (ib - ic) ≥ 170 ∧ absI (ia - ic) ≥ 170)
+    let sorted := ([(ia, a), (ib, b), (ic, c)].toArray.qsort (fun x y => x.1 < y.1)).toList.map (·.2)
+    let sp := if !far then noPanic impl else match impl with
+      | .ok [x, y, z, rg, rgi] =>
+        verdict [("sorted_chronologically", [x, y, z] == sorted.map showEp),
+                 ("half_open_range", rg == bool01 (decide (ia < ib ∧ ib < ic))),
+                 ("inclusive_range", rgi == bool01 (decide (ia < ib ∧ ib < ic)))]
+      | .other w => "FAIL:" ++ w
+      | _ => "FAIL:decode"
+    -- std's sort: its comparison sequence is not modelled, the model column is left to the spec
+    pure { model := "-", spec := sp,
+           branch := "esort_dyn:" ++ a.ts.name ++ "," ++ b.ts.name ++ "," ++ c.ts.name ++ ":" ++ (if far then "far" else "within_170ns") }
+  | "series_dyn", [incl, start, span, endTs, step, cap] => do
+    -- C15 with an ET/TDB start and an end in another scale, or the reverse: "k x step < end - start", the
+    -- difference being the library's own (C04: the right operand, here the start, re-expressed in the left
+    -- one's scale), which the executor reports as the last field; the items are plain arithmetic on the
+    -- start's elapsed time
+    let start ← parseEp? start; let span ← parseDur? span; let endTs ← TS.ofString? endTs
+    let step ← parseDur? step; let cap ← cap.toNat?
+    let incl := incl == "1"
+    let e0 : Ep := ⟨Dur.add start.dur span, start.ts⟩
+    let vs := sval step
+    let back? : Option Ep := match impl with
+      | .ok l => l.getLast?.bind parseEp?
+      | _ => none
+    let judge (vD : Int) : String := match impl with
+      | .ok [cnt, _endS, firstS, lastS, ord, same, after, sum, _back] =>
+        let wantN : Int := if vD < 0 then 0 else if incl then vD / vs + 1 else (vD + vs - 1) / vs
+        let wn := if wantN > cap then (cap : Int) else wantN
+        let wfirst := (List.range (min 3 wn.toNat)).map (fun (k : Nat) => showEp ⟨Dur.fromTotal (sval start.dur + (k : Int) * vs), start.ts⟩)
+        let wlast := if wn == 0 then "-" else showEp ⟨Dur.fromTotal (sval start.dur + (wn - 1) * vs), start.ts⟩
+        verdict [("count", cnt == toString wn), ("first_items", firstS == (if wfirst.isEmpty then "-" else ",".intercalate wfirst)),
+                 ("last_item", lastS == wlast), ("increasing", ord == "1"), ("scale_of_start", same == "1"),
+                 ("none_after_end", after == "1"),
+                 ("checksum_of_all_items", sum == toString ((wn * sval start.dur + vs * (wn * (wn - 1) / 2)) % 18446744073709551616))]
+      | .other w => "FAIL:" ++ w
+      | _ => "FAIL:decode"
+    let endI? : Option Ep := match impl with
+      | .ok (_ :: es :: _) => parseEp? es
+      | _ => none
+    let sp := match back?, endI? with
+      | some bk, some en =>
+                   if bk.ts != endTs || en.ts != endTs then "FAIL:reexpressed_in_end_scale"
+                   else if vs ≤ 0 then noPanic impl
+                   -- the span the library measures is the one asked for within the conversions' tolerance (C07: 30 ns
+                   -- each) and the rate difference between a dynamical and an atomic scale (below 3.4e-10: the
+                   -- derivative of the periodic term), the span being measured in the END's scale
+                   else if !(within (sval en.dur - sval bk.dur - sval span) (60 + absI (sval span) / 2000000000)) then "FAIL:span_is_end_minus_start"
+                   else judge (sval en.dur - sval bk.dur)
+      | _, _ => (match impl with | .other w => "FAIL:" ++ w | _ => "FAIL:decode")
+    -- model: the float conversions of both ends, then the modelled iterator
+    let m := match toTimeScaleF e0 endTs, toTimeScaleF start endTs with
+      | some endE, some bk =>
+            -- a 1 ns difference in the platform sine is tolerated (see dyn_to): then the model continues from the implementation's value
+            let bk' := match back? with | some ib => if ib != bk && ib.ts == bk.ts && within (sval ib.dur - sval bk.dur) 1 then ib else bk | none => bk
+            let endE' := match endI? with | some ie => if ie != endE && ie.ts == endE.ts && within (sval ie.dur - sval endE.dur) 1 then ie else endE | none => endE
+            let s : Series := ⟨start, Dur.sub endE'.dur bk'.dur, step, 0, incl⟩
+            let items := Series.run cap s
+            let ordered := (items.zip items.tail).all (fun p => Dur.cmp p.1.dur p.2.dur == -1)
+            let first := (items.take 3).map showEp
+            "ok " ++ toString items.length ++ " " ++ showEp endE' ++ " " ++ (if first.isEmpty then "-" else ",".intercalate first) ++ " " ++
+              (match items.getLast? with | some l => showEp l | none => "-") ++ " " ++ bool01 ordered ++ " 1 1 " ++
+              toString ((items.foldl (fun (acc : Int) (x : Ep) => acc + sval x.dur) 0) % 18446744073709551616) ++ " " ++ showEp bk'
+      | _, _ => "unmodelled"
+    pure { model := m, spec := sp,
+           branch := "series_dyn:" ++ (if incl then "incl" else "excl") ++ ":" ++ start.ts.name ++ "," ++ endTs.name }
   | "weekday", [e] | "weekday_utc", [e] | "weekday_ts", [e, _] => do
     -- C16 for epochs HELD in ET or TDB (the handler of Drive/Epoch answers nothing for them): the weekday of the calendar
     -- date in the target scale; the instant comes from the closed form (30 ns), so the verdict is demanded when the civil
